@@ -346,6 +346,14 @@ class Gen:
         elif kind < 0.5:
             s = "it''s " + "".join(r.choice("ab'.") for _ in range(r.randint(0, 6))).replace("'", "''")
             self.hit("lit:string-with-apostrophe")
+        elif kind < 0.62:
+            # long, dotted, with apostrophes: the split path of breakLongStr works on the text with doubled apostrophes
+            seg = lambda: "".join(r.choice("abcdefgh_") for _ in range(r.randint(1, 14)))
+            parts = [seg() + (r.choice(["''s", "''", "n''t_" + seg()]) if r.random() < 0.5 else "") for _ in range(r.randint(2, 9))]
+            if not any("''" in q for q in parts):
+                parts[-1] += "''z"
+            s = ".".join(parts) + r.choice(["", ".", "''", "x"])
+            self.hit("lit:long-dotted-string-with-apostrophes")
         elif kind < 0.8:
             s = ".".join("".join(r.choice("abcdefgh_") for _ in range(r.randint(1, 12))) for _ in range(r.randint(2, 9)))
             self.hit("lit:long-dotted-string")
